@@ -45,6 +45,9 @@ type Exec struct {
 	Diverge string
 	maxPts  int
 	panicV  any
+
+	collapse     bool // collapse chains of consecutive scheduling-point entries into one point
+	lastWasPoint bool
 }
 
 func (e *Exec) aliveMask() uint8 {
@@ -99,8 +102,18 @@ func (e *Exec) point(kind uint8, id int) int {
 
 func (e *Exec) hook(id int) {
 	if !e.isPoint[id] {
+		e.lastWasPoint = false
 		return
 	}
+
+	// a chain of wrappers (Add -> add -> addProjectiveComplete) enters several functions with nothing in between:
+	// when the granularity is coarser than "every function" only the first entry of such a chain is a scheduling
+	// point (preempting between two consecutive entries is the same interleaving)
+	if e.collapse && e.lastWasPoint {
+		return
+	}
+
+	e.lastWasPoint = true
 
 	if len(e.Kind) > e.maxPts {
 		return // horizon: beyond it the running thread simply continues
@@ -132,6 +145,13 @@ func (e *Exec) finish(me int) {
 // Run executes bodies under plan. isPoint selects the scheduling-point granularity.
 func Run(bodies []func(), plan []Decision, isPoint []bool) *Exec {
 	e := &Exec{plan: plan, isPoint: isPoint, mainCh: make(chan struct{}, 1), h: 1469598103934665603, maxPts: 1 << 20}
+
+	for _, p := range isPoint {
+		if !p {
+			e.collapse = true // coarse granularity
+			break
+		}
+	}
 
 	for _, b := range bodies {
 		e.threads = append(e.threads, &thread{body: b, resume: make(chan struct{})})
